@@ -475,20 +475,17 @@ type wgRef struct {
 }
 
 func (c *Ctx) wgOfCall(cc *ssa.CallCommon, method string) (wgRef, bool) {
+	if method == "Done" {
+		// sync.Once.Do(wg.Done)
+		if w, ok := onceDone(cc); ok {
+			return w, true
+		}
+	}
 	if core.StaticCalleeName(cc) != "(*sync.WaitGroup)."+method || len(cc.Args) == 0 {
 		return wgRef{}, false
 	}
-	v := cc.Args[0]
-	// &x.wg  or  load of x.wg (pointer field)
-	if fa, ok := v.(*ssa.FieldAddr); ok {
-		return wgRef{structOf(fa.X.Type()), fieldName(fa.X.Type(), fa.Field)}, true
-	}
-	if ld, ok := v.(*ssa.UnOp); ok {
-		if fa, ok := ld.X.(*ssa.FieldAddr); ok {
-			return wgRef{structOf(fa.X.Type()), fieldName(fa.X.Type(), fa.Field)}, true
-		}
-	}
-	return wgRef{}, true
+	// &x.wg, a load of x.wg (pointer field), or a fresh WaitGroup that is stored into a field
+	return wgRefOf(cc.Args[0]), true
 }
 
 func sameWG(a, b wgRef) bool {
@@ -764,6 +761,8 @@ func (c *Ctx) ruleWG(rule string) {
 			}
 		}
 	}
+	// (d) every count is released in the call tree that added it
+	c.ruleWGPair(rule)
 	// (c) cancel before wait in the client: every Wait on the client WaitGroup (direct or through a helper taking
 	// &wg) is dominated by a call of the context's cancel function
 	ro := c.roles()
